@@ -459,7 +459,7 @@ def run_wquantile(env, case, prop="C18"):
     """weighted quantile: the evaluation is repeated with all weights multiplied by 3, by 2^-30 and by 2^30 (exact
     in binary floating point); every cell must come out the same (rescaling invariance)"""
     env.run_xcube(prop, case)
-    ev_ids = [t for t, m in env.rec.meta.items() if m["group"] == env.rec.group]
+    ev_ids = [t for t, m in env.rec.meta.items() if m.get("group") == env.rec.group]
     by_tid = {e["tid"]: e for e in env.rec.events}
     for factor in (3, Fraction(1, 2 ** 30), 2 ** 30):
         w2 = dict(case.weights)
